@@ -590,11 +590,44 @@ func ruleC11Only(p *Prog, a *Anchors, r *Report) {
 			}
 			// on the err != nil side, every success return must be guarded by both conditions
 			ei := errorResultIndex(fn)
+			// the points at which a failed load is swallowed: a success return on the error side, or a block of the
+			// error side from which control goes on with the rest of the function (`missing = true`, then the with-pairs
+			// are parsed as usual)
+			var swallowPoints []ssa.Instruction
 			for _, ret := range returnsOf(fn) {
-				if ei < 0 || !isNilConst(res(ret, ei)) {
+				if ei >= 0 && isNilConst(res(ret, ei)) {
+					swallowPoints = append(swallowPoints, ret)
+				}
+			}
+			for _, b := range fn.Blocks {
+				iff, isIf := b.Instrs[len(b.Instrs)-1].(*ssa.If)
+				if !isIf {
 					continue
 				}
-				// is this return on the error side of the FromFile call?
+				x, eq, isNil := condIsNilTest(iff.Cond)
+				if !isNil || x != ssa.Value(errEx) {
+					continue
+				}
+				errBlock := b.Succs[0]
+				if eq {
+					errBlock = b.Succs[1]
+				}
+				if len(errBlock.Preds) != 1 {
+					continue
+				}
+				for _, rb := range fn.Blocks {
+					if !errBlock.Dominates(rb) {
+						continue
+					}
+					for _, sb := range rb.Succs {
+						if !errBlock.Dominates(sb) {
+							swallowPoints = append(swallowPoints, rb.Instrs[len(rb.Instrs)-1])
+						}
+					}
+				}
+			}
+			for _, ret := range swallowPoints {
+				// is this point on the error side of the FromFile call?
 				onErr := Guarded(ret, func(cnd ssa.Value, pol bool) bool {
 					x, eq, isNil := condIsNilTest(cnd)
 					return isNil && x == ssa.Value(errEx) && eq != pol
